@@ -40,6 +40,10 @@ CHECKS = {
             "Several ops with different PUSH0 settings in one process (the flag is process-wide) on zero-rich blocks; checks per op: no PUSH0 emitted under -push0 unless present in the input, printed initial/optimized totals equal R4 sums priced under the op's own flag, files and totals equal to the same op in a pristine process, and for -c the document/log/rows concern the selected contract only.",
             "Flag histories of length <= 3 with a fixed split mode per process; R4 pricing; PUSH \"0\" and PUSH0 are the same item in JSON.",
             TECH + ": flag-value histories within one process versus a pristine process, independent pricing"),
+    "C02": ("exploration", "§5 C02",
+            "The schedule quantifier is literal: the real front-end's specification of each sub-block is executed by a reference evaluator under seeded linearisations of its operations that respect only the declared ordering constraints and data flow (uniform / reverse / stores-first / loads-first / depth-first policies) plus targeted two-order schedules for every unordered pair of accesses that collide on the concrete state, and compared with the reference interpreter running the original instructions. Failing blocks are minimised.",
+            "Trusts R1/R3 (gsim/ref/evm.py, speceval.py); states and schedules sampled (8x8 per specification quick, 32x40 thorough); no offset wrap modulo 2^256.",
+            TECH + ": seeded scheduler over the specification's partial order, targeted reorderings of colliding unordered accesses"),
 }
 NA = {
     "C03": "pure function of a term on 256-bit words: no schedule, clock, peer, file, crash or history between term and rewritten term (rule bait still runs through C01/C02 as a side effect)",
